@@ -55,6 +55,8 @@ def gen_pipelines(rng, tier, npipes=None, big=False, pool=None, p_enc=0.4):
 
         if rng.chance(0.04):
             wspec['write_returns_none'] = True  # a sink that returns nothing
+        elif rng.chance(0.04):
+            wspec['raw_sink'] = True        # an unbuffered (raw) sink
 
         if rng.chance(0.05):
             wspec['subclassed'] = True
